@@ -6,7 +6,87 @@ use std::panic::{AssertUnwindSafe, catch_unwind};
 use bevy::prelude::*;
 use bevy_replicon::bytes::Bytes;
 use bevy_replicon::shared::entity_serde;
+use bevy_replicon::client::confirm_history::ConfirmHistory;
+use bevy_replicon::client::server_mutate_ticks::ServerMutateTicks;
+use bevy_replicon::prelude::RepliconTick;
 use rv_harness::*;
+
+fn guard<T>(f: impl FnOnce() -> T) -> Option<T> {
+    catch_unwind(AssertUnwindSafe(f)).ok()
+}
+
+fn tick(s: &str) -> RepliconTick {
+    RepliconTick::new(num(s) as u32)
+}
+
+/// `tcmp a b`
+fn tcmp(args: &[&str]) -> String {
+    match tick(args[0]).cmp(&tick(args[1])) {
+        std::cmp::Ordering::Less => "L",
+        std::cmp::Ordering::Equal => "E",
+        std::cmp::Ordering::Greater => "G",
+    }
+    .into()
+}
+
+/// `hist <t0> <op;op;...>` with ops `c:t` confirm, `q:t` contains, `r:a:b` contains_any.
+fn hist(args: &[&str]) -> String {
+    let mut h = ConfirmHistory::new(tick(args[0]));
+    let mut out = Vec::new();
+    for op in args.get(1).copied().unwrap_or("").split(';').filter(|o| !o.is_empty()) {
+        let f: Vec<&str> = op.split(':').collect();
+        match f[0] {
+            "c" => {
+                if guard(|| h.confirm(tick(f[1]))).is_none() {
+                    out.push("P".to_string());
+                    break;
+                }
+            }
+            "q" => out.push(match guard(|| h.contains(tick(f[1]))) {
+                Some(b) => format!("{}", b as u8),
+                None => "P".into(),
+            }),
+            "r" => out.push(match guard(|| h.contains_any(tick(f[1]), tick(f[2]))) {
+                Some(b) => format!("{}", b as u8),
+                None => "P".into(),
+            }),
+            _ => out.push("?".into()),
+        }
+    }
+    format!("{} | {:x} {:x}", out.join(","), h.mask(), h.last_tick().get())
+}
+
+/// `mt <op;op;...>` with ops `c:t:count` confirm, `q:t`, `r:a:b`, `m` mask.
+fn mt(args: &[&str]) -> String {
+    let mut m = ServerMutateTicks::default();
+    let mut out = Vec::new();
+    for op in args.first().copied().unwrap_or("").split(';').filter(|o| !o.is_empty()) {
+        let f: Vec<&str> = op.split(':').collect();
+        match f[0] {
+            "c" => match guard(|| m.confirm(tick(f[1]), num(f[2]) as usize)) {
+                Some(b) => out.push(format!("{}", b as u8)),
+                None => {
+                    out.push("P".to_string());
+                    return out.join(",");
+                }
+            },
+            "q" => out.push(match guard(|| m.contains(tick(f[1]))) {
+                Some(b) => format!("{}", b as u8),
+                None => "P".into(),
+            }),
+            "r" => out.push(match guard(|| m.contains_any(tick(f[1]), tick(f[2]))) {
+                Some(b) => format!("{}", b as u8),
+                None => "P".into(),
+            }),
+            "m" => out.push(match guard(|| m.mask()) {
+                Some(b) => format!("{b:x}"),
+                None => "P".into(),
+            }),
+            _ => out.push("?".into()),
+        }
+    }
+    format!("{} | {:x} {:x}", out.join(","), m.mask(), m.last_tick().get())
+}
 
 fn ent_dec(args: &[&str]) -> String {
     let mut b: Bytes = unhex(args[0]).into();
@@ -25,10 +105,60 @@ fn ent_enc(args: &[&str]) -> String {
     }
 }
 
+fn parse_ents(s: &str) -> Vec<(usize, usize)> {
+    if s == "_" || s == "-" {
+        return Vec::new();
+    }
+    s.split(',')
+        .map(|e| {
+            let (a, b) = e.split_once(':').unwrap();
+            (num(a) as usize, num(b) as usize)
+        })
+        .collect()
+}
+
+/// `split <track> <max> <related g|g> <standalone>`
+fn split(args: &[&str]) -> String {
+    use bevy_replicon::server::verif_hooks::mutations_split;
+    let related: Vec<Vec<(usize, usize)>> = if args[2] == "_" {
+        Vec::new()
+    } else {
+        args[2].split('|').map(parse_ents).collect()
+    };
+    let standalone = parse_ents(args[3]);
+    let out = mutations_split(&related, &standalone, args[0] == "1", num(args[1]) as usize);
+    if out.is_empty() {
+        return "NONE".into();
+    }
+    out.iter()
+        .map(|(len, ids)| {
+            format!(
+                "{len:x}:{}",
+                ids.iter().map(|i| format!("{i:x}")).collect::<Vec<_>>().join(",")
+            )
+        })
+        .collect::<Vec<_>>()
+        .join(";")
+}
+
+fn can_pack(args: &[&str]) -> String {
+    let b = bevy_replicon::server::verif_hooks::can_pack(
+        num(args[0]) as usize,
+        num(args[1]) as usize,
+        num(args[2]) as usize,
+    );
+    format!("{}", b as u8)
+}
+
 fn handle(cmd: &str, args: &[&str]) -> String {
     match cmd {
         "ent_dec" => ent_dec(args),
         "ent_enc" => ent_enc(args),
+        "tcmp" => tcmp(args),
+        "split" => split(args),
+        "can_pack" => can_pack(args),
+        "hist" => hist(args),
+        "mt" => mt(args),
         _ => "UNKNOWN".into(),
     }
 }
